@@ -109,6 +109,14 @@ CLAIMED = {
             'ASCII and binary round trips are a BOUNDED stand-in (executable twin, seeded inputs) - the delimiter search over hex text / escaped payload is not '
             'discharged within budget. Binary buildPacket is covered by its length contract only. An arbitrary message is abstracted by "encode() returns some bytes". '
             'Two known findings (binary delimiter bytes; diagnostic RTU frame size constant).', 'contract-based deductive verification (pyvc) + bounded twin for two framers', 'DESIGN.md section 4 C03'),
+    'C06': ('proof', 'Per-call contracts over ARBITRARY valid frames (given relationally by the S-ADU validity conditions) and an arbitrary remainder: `step` - at a '
+            'frame boundary with buffer+chunk = V ++ R the first loop iteration delivers exactly the message of V (PDU bytes, unit id) and leaves buffer = R with a '
+            'clean header (induction step of delivered = Frames(received) for any number of frames per read); `partial`/`resume` - a frame arriving in 2 or 3 reads '
+            'with SYMBOLIC cut positions: no exception, nothing delivered, buffer = exactly the received prefix, and the completing read behaves as one read would. '
+            'ASCII satisfies all of them (fully proved, every cut position); socket, RTU and binary are proved for whole frames per read and have known findings '
+            'for partial reads (4 findings).', 'Three-or-more cuts follow by induction from the proved state equality after a partial read (buffer = prefix, clean header) - '
+            'stated, not mechanised. Decoder abstracted (returns a message for any non-empty PDU); binary frames without delimiter bytes. A1-A10; z3/cvc5.',
+            'contract-based deductive verification (pyvc VC generation from /repo AST + z3/cvc5)', 'DESIGN.md section 4 C06'),
 }
 NOT_YET = 'check not built yet at this commit (planned: contract-based, see DESIGN.md section 4)'
 ALL = ['C%02d' % i for i in range(1, 21)]
